@@ -58,6 +58,10 @@ def empty_pairs():
     return []
 
 
+def empty_strs():
+    return []
+
+
 def seq_update(xs, i, x):
     ys = list(xs)
     ys[i] = x
